@@ -156,8 +156,11 @@ func (m *lifecycleManager) handleInitialize(ctx context.Context, req *JSONRPCReq
 	supportedVersion := m.selectSupportedVersion(protocolVersion)
 	m.logProtocolVersion(protocolVersion, supportedVersion)
 	m.saveSessionState(session, supportedVersion)
+	// Concurrent initialize requests recompute and read the same capabilities map.
+	m.mu.Lock()
 	m.updateCapabilities()
 	response := m.buildInitializeResponse(supportedVersion)
+	m.mu.Unlock()
 	return response, nil
 }
 
